@@ -31,6 +31,7 @@ structure OnlineIface (P : Proto) (core : P.Conn → Option Online) (cfg : Cfg) 
   /-- `peer tx ty`: the datagrams of an endpoint holding `tx` pass the token check of one holding `ty` -/
   peer : Tok → Tok → Prop
   core_mk : ∀ t o s, core (mkc t o s) = some o
+  online_mk : ∀ t o s, P.online (mkc t o s) = some o
   timed_mk : ∀ now t o s, S now (mkc t o s) → SendDue now s ∧ RqDue now o
   view_chunk : ∀ t f, P.view (chunkPkt t f) = some (f.ack, f.chunks)
   view_ka : ∀ t a, P.view (kaPkt t a) = some (a, [])
@@ -538,5 +539,40 @@ theorem timedRound_spec (I : OnlineIface P core cfg S) (hc : cfg.Ok) (hs : Sim P
     · intro x; cases x
       · exact ⟨(db1 ++ db2).map Dg.fl, hpsb, k3⟩
       · exact ⟨(da1 ++ da2).map Dg.fl, hpsa, g3⟩
+
+theorem timedRounds_succ (alt : P.Alt) (k : Nat) (w : World P) :
+    timedRounds alt (k + 1) w = (timedRound alt w).bind (timedRounds alt k) := by
+  simp only [timedRounds]
+  cases timedRound alt w <;> rfl
+
+/-- **timed progress, online phase**: from two online connections with matching tokens (in a world
+satisfying the safety invariant and the timer bounds) four timed rounds — clock + 1 s, both tick,
+clock + 0.5 s, both tick, the tick datagrams are delivered in order — all return and end with
+everything handed over, both resend queues and packets empty and no resend requested -/
+theorem timed_progress (I : OnlineIface P core cfg S) (hc : cfg.Ok) (hs : Sim P core cfg) (hl : LocT P S)
+    (alt : P.Alt) {ta tb : I.Tok} {w : World P} (h : OnlineW I ta tb w) :
+    ∃ w', timedRounds alt 4 w = some w' ∧ (viewW core w').quiescent ∧ OnlineW I ta tb w' := by
+  obtain ⟨b1, w1, e1, o1, R1⟩ := timedRound_spec I hc hs hl alt h
+  obtain ⟨b2, w2, e2, o2, R2⟩ := timedRound_spec I hc hs hl alt o1
+  obtain ⟨b3, w3, e3, o3, R3⟩ := timedRound_spec I hc hs hl alt o2
+  obtain ⟨b4, w4, e4, o4, R4⟩ := timedRound_spec I hc hs hl alt o3
+  refine ⟨w4, ?_, four_rounds R1 R2 R3 R4, o4⟩
+  simp only [timedRounds_succ, e1, e2, e3, e4, Option.bind_some, timedRounds]
+
+theorem OnlineW.quiescent {I : OnlineIface P core cfg S} {ta tb : I.Tok} {w : World P} (h : OnlineW I ta tb w)
+    (hq : (viewW core w).quiescent) : w.quiescent := by
+  obtain ⟨oa, sa, ha⟩ := h.ca
+  obtain ⟨ob, sb, hb⟩ := h.cb
+  have hca : core w.a.conn = some oa := by rw [ha]; exact I.core_mk _ _ _
+  have hcb : core w.b.conn = some ob := by rw [hb]; exact I.core_mk _ _ _
+  rw [viewW_eq w hca hcb] at hq
+  have qa := hq true
+  have qb := hq false
+  simp only [Bool.not_true, Bool.not_false, if_true, Bool.false_eq_true, if_false] at qa qb
+  refine ⟨qa.1, qb.1, ?_⟩
+  intro s
+  cases s with
+  | a => exact ⟨oa, by show P.online w.a.conn = _; rw [ha]; exact I.online_mk _ _ _, qa.2⟩
+  | b => exact ⟨ob, by show P.online w.b.conn = _; rw [hb]; exact I.online_mk _ _ _, qb.2⟩
 
 end Tw.NetSim
